@@ -109,3 +109,94 @@ def drift(result_dir, histories):
                     seq.append((e['op'], e['r']['k'] == 'ok'))
         flush()
     return total, mism
+
+# ------------------------------------------------------------------------------------------------
+# API-level tours (MCApi): open tables, limits, stale handles, the mode x state matrix
+
+API_NAMES = {'4120202020202020202020': 'A', '5220202020202020202020': 'R', '4420202020202020202020': 'D', '4e20202020202020202020': 'N',
+             '2e20202020202020202020': '.', '2e2e202020202020202020': '..'}
+
+def api_behaviours(num, seed):
+    rc, out, wall = run_tlc('MCApiSim.tla', 'MCApiSim.cfg', workers=1, timeout=900, tag='apisim', extra=['-simulate', 'num=%d' % num, '-depth', '60', '-seed', str(seed)], heap='4g')
+    reps = tla_prints(out, 'REPLAY')
+    if not reps:
+        raise ToolError('MCApiSim produced no behaviours: ' + out[-1500:])
+    seen, res = set(), []
+    for r in reps:
+        key = json.dumps(r[1][:-1])          # TLC prints every successor of the last step: keep one per behaviour
+        if key not in seen:
+            seen.add(key)
+            res.append(r[1])
+    return res
+
+def api_image():
+    v, upc, bounds = fsgen.geom('G16a', tree='T0', nfree=4, bounds=[0, 256])
+    low = [2, 3, 4]
+    v['window'] = sorted(set(v['window'] + low))
+    v['root'] = [f('A', [2], 1), f('R', [3], 1, attr=0x21), d('D', [4], [])]
+    return dict(vols=[v]), upc, bounds
+
+def api_to_history(hid, labels):
+    image, upc, bounds = api_image()
+    ops, expect = [], []
+    def var(h):
+        return 'h%d' % h
+    for lab in labels:
+        op, refs = lab[0], lab[1]
+        name = op[0]
+        o = None
+        if name == 'open_volume':
+            o = fsgen.O('open_volume', idx=None, as_=var(op[1]) if op[1] >= 0 else 'hx')
+        elif name == 'close_volume':
+            o = fsgen.O('close_volume', v=var(op[1]))
+        elif name == 'open_root':
+            o = fsgen.O('open_root', v=var(op[1]), as_=var(op[2]) if op[2] >= 0 else 'hx')
+        elif name == 'open_dir':
+            o = fsgen.O('open_dir', d=var(op[1]), name=API_NAMES[op[2]], as_=var(op[3]) if op[3] >= 0 else 'hx')
+        elif name == 'close_dir':
+            o = fsgen.O('close_dir', d=var(op[1]))
+        elif name == 'open_file':
+            o = fsgen.O('open_file', d=var(op[1]), name=API_NAMES[op[2]], mode=op[3], as_=var(op[4]) if op[4] >= 0 else 'hx')
+        elif name in ('write', 'read'):
+            o = fsgen.O(name, f=var(op[1]), n=1)
+        elif name in ('flush', 'close_file'):
+            o = fsgen.O(name, f=var(op[1]))
+        elif name in ('delete', 'mkdir'):
+            o = fsgen.O(name, d=var(op[1]), name=API_NAMES[op[2]])
+        if o is None:
+            continue
+        ops.append(o)
+        want = None if (refs and set(refs) & {'ok', 'skip'}) else (len(refs) == 0)
+        expect.append((o['op'], want, sorted(refs)))
+    fsgen.fix_slot(image, ops)
+    ops.append(fsgen.O('has_open'))
+    return dict(id=hid, src='apitour', image=image, bounds=bounds, limits=[2, 2, 2], ops=ops, apiexpect=expect)
+
+def api_tour_histories(seed, quick):
+    beh = api_behaviours(60 if quick else 1500, seed)
+    return [api_to_history('A%d' % i, b) for i, b in enumerate(beh)]
+
+def api_drift(result_dir, histories):
+    """the model says whether each call is refused; compare with what the implementation did (ops are lined up by
+    their index in the scenario; ops the harness had to skip - a handle of another kind - have no counterpart)"""
+    import glob
+    exp = {h['id']: h['apiexpect'] for h in histories if 'apiexpect' in h}
+    total, mism = 0, []
+    for tr in glob.glob(os.path.join(result_dir, 'trace-*.ndjson')):
+        hid, idx = None, -1
+        with open(tr) as fh:
+            for line in fh:
+                e = json.loads(line)
+                if e['ev'] == 'Reset':
+                    hid = e['hid']
+                elif e['ev'] == 'Call':
+                    idx = e.get('i', -1)
+                elif e['ev'] == 'Ret' and hid in exp and 0 <= idx < len(exp[hid]):
+                    wop, wok, refs = exp[hid][idx]
+                    if wok is None or wop != e['op']:
+                        continue
+                    total += 1
+                    gok = e['r']['k'] == 'ok'
+                    if wok != gok and len(mism) < 50:
+                        mism.append(dict(hid=hid, want=[wop, wok, refs], got=[e['op'], gok, e['r']['e']], i=idx))
+    return total, mism
